@@ -155,11 +155,31 @@ static void sch_release_locked(int me, void *m)
 	for (int i = 0; i < S.nt; i++) if (S.t[i].st == TS_BLOCK_MUTEX && S.t[i].obj == m) S.t[i].st = TS_RUNNABLE;
 }
 
+/* lifetime of the synchronisation objects themselves: the scheduler keeps their state outside the objects, so a call on a destroyed or freed
+ * mutex / condition variable would otherwise leave no trace.  (1) every call reads the object's first and last byte from instrumented code: ASan
+ * reports a call on freed memory with the caller's stack; (2) destroyed objects are remembered until the same address is initialised again. */
+#define SCH_DEAD_MAX 512
+static const void *sch_dead[SCH_DEAD_MAX]; static int sch_ndead;
+static inline void sch_touch(const volatile void *obj, size_t n) { const volatile char *p = obj; (void)p[0]; (void)p[n - 1]; }
+static void sch_mark_dead_locked(const void *obj) { sch_dead[sch_ndead++ % SCH_DEAD_MAX] = obj; }
+static void sch_mark_alive_locked(const void *obj) { for (int i = 0; i < SCH_DEAD_MAX; i++) if (sch_dead[i] == obj) sch_dead[i] = NULL; }
+static void sch_check_alive_locked(int me, const void *obj, const char *what, const char *call)
+{
+	for (int i = 0; i < SCH_DEAD_MAX; i++) if (sch_dead[i] == obj) {
+		char sig[96]; snprintf(sig, sizeof sig, "C13/%s-on-destroyed-%s", call, what);
+		viol(sig, "thread T%d calls %s on a %s that has already been destroyed; last steps: %s", me, call, what, sch_trace_str(30));
+		sch_dead[i] = NULL;
+		return;
+	}
+}
+
 int __wrap_pthread_mutex_lock(pthread_mutex_t *m)
 {
 	if (!S.active) return __real_pthread_mutex_lock(m);
+	sch_touch(m, sizeof *m);
 	__real_pthread_mutex_lock(&S.mu);
 	int me = sch_self();
+	sch_check_alive_locked(me, m, "mutex", "pthread_mutex_lock");
 	sch_point_locked(me, OP_LOCK);
 	sch_acquire_locked(me, m);
 	__real_pthread_mutex_unlock(&S.mu);
@@ -168,8 +188,10 @@ int __wrap_pthread_mutex_lock(pthread_mutex_t *m)
 int __wrap_pthread_mutex_unlock(pthread_mutex_t *m)
 {
 	if (!S.active) return __real_pthread_mutex_unlock(m);
+	sch_touch(m, sizeof *m);
 	__real_pthread_mutex_lock(&S.mu);
 	int me = sch_self();
+	sch_check_alive_locked(me, m, "mutex", "pthread_mutex_unlock");
 	sch_release_locked(me, m);
 	sch_point_locked(me, OP_UNLOCK);
 	__real_pthread_mutex_unlock(&S.mu);
@@ -178,8 +200,10 @@ int __wrap_pthread_mutex_unlock(pthread_mutex_t *m)
 int __wrap_pthread_cond_wait(pthread_cond_t *c, pthread_mutex_t *m)
 {
 	if (!S.active) return __real_pthread_cond_wait(c, m);
+	sch_touch(c, sizeof *c); sch_touch(m, sizeof *m);
 	__real_pthread_mutex_lock(&S.mu);
 	int me = sch_self();
+	sch_check_alive_locked(me, c, "condition-variable", "pthread_cond_wait");
 	S.steps++; sch_log(me, OP_WAIT);
 	sch_release_locked(me, m);
 	S.t[me].st = TS_BLOCK_COND; S.t[me].obj = c;
@@ -191,8 +215,10 @@ int __wrap_pthread_cond_wait(pthread_cond_t *c, pthread_mutex_t *m)
 int __wrap_pthread_cond_signal(pthread_cond_t *c)
 {
 	if (!S.active) return __real_pthread_cond_signal(c);
+	sch_touch(c, sizeof *c);
 	__real_pthread_mutex_lock(&S.mu);
 	int me = sch_self();
+	sch_check_alive_locked(me, c, "condition-variable", "pthread_cond_signal");
 	int w[SCH_MAXT], n = 0;
 	for (int i = 0; i < S.nt; i++) if (S.t[i].st == TS_BLOCK_COND && S.t[i].obj == c) w[n++] = i;
 	if (n) { int x = w[rndn(&S.rng, n)]; S.t[x].st = TS_RUNNABLE; sch_log(x, OP_WAKE); }
@@ -203,8 +229,10 @@ int __wrap_pthread_cond_signal(pthread_cond_t *c)
 int __wrap_pthread_cond_broadcast(pthread_cond_t *c)
 {
 	if (!S.active) return __real_pthread_cond_broadcast(c);
+	sch_touch(c, sizeof *c);
 	__real_pthread_mutex_lock(&S.mu);
 	int me = sch_self();
+	sch_check_alive_locked(me, c, "condition-variable", "pthread_cond_broadcast");
 	for (int i = 0; i < S.nt; i++) if (S.t[i].st == TS_BLOCK_COND && S.t[i].obj == c) { S.t[i].st = TS_RUNNABLE; sch_log(i, OP_WAKE); }
 	sch_point_locked(me, OP_SIGNAL);
 	__real_pthread_mutex_unlock(&S.mu);
@@ -213,7 +241,7 @@ int __wrap_pthread_cond_broadcast(pthread_cond_t *c)
 int __wrap_pthread_mutex_init(pthread_mutex_t *m, const pthread_mutexattr_t *a)
 {
 	(void)a;
-	if (S.active) { __real_pthread_mutex_lock(&S.mu); sch_mutex(m)->owner = -1; __real_pthread_mutex_unlock(&S.mu); }
+	if (S.active) { __real_pthread_mutex_lock(&S.mu); sch_mutex(m)->owner = -1; sch_mark_alive_locked(m); __real_pthread_mutex_unlock(&S.mu); }
 	memset(m, 0, sizeof *m);
 	return 0;
 }
@@ -224,16 +252,24 @@ int __wrap_pthread_mutex_destroy(pthread_mutex_t *m)
 		mx_t *e = sch_mutex(m);
 		if (e->owner >= 0) viol("C13/destroy-of-locked-mutex", "a mutex owned by T%d is destroyed; last steps: %s", e->owner, sch_trace_str(30));
 		e->addr = NULL;
+		sch_mark_dead_locked(m);
 		__real_pthread_mutex_unlock(&S.mu);
 	}
 	return 0;
 }
-int __wrap_pthread_cond_init(pthread_cond_t *c, const pthread_condattr_t *a) { (void)a; memset(c, 0, sizeof *c); return 0; }
+int __wrap_pthread_cond_init(pthread_cond_t *c, const pthread_condattr_t *a)
+{
+	(void)a;
+	if (S.active) { __real_pthread_mutex_lock(&S.mu); sch_mark_alive_locked(c); __real_pthread_mutex_unlock(&S.mu); }
+	memset(c, 0, sizeof *c);
+	return 0;
+}
 int __wrap_pthread_cond_destroy(pthread_cond_t *c)
 {
 	if (S.active) {
 		__real_pthread_mutex_lock(&S.mu);
 		for (int i = 0; i < S.nt; i++) if (S.t[i].st == TS_BLOCK_COND && S.t[i].obj == c) viol("C13/destroy-of-condition-with-waiters", "a condition variable with waiter T%d is destroyed", i);
+		sch_mark_dead_locked(c);
 		__real_pthread_mutex_unlock(&S.mu);
 	}
 	return 0;
